@@ -67,7 +67,7 @@ def _vol_chunk(args):
         if nc and (i + seed) % rdm_mod == 0:
             m = S.RDM_METHODS[(i // rdm_mod + seed) % len(S.RDM_METHODS)]
             b2, _ = S.check_rdms(tuple(rec['shape']), rec['centres'], rec['neigh'], m, variant=variant,
-                                 seed=seed * 7919 + i)
+                                 seed=seed * 7919 + i, dtype=S.DATA_DTYPES[(i // 3 + seed) % len(S.DATA_DTYPES)])
             for k, w, d in b2:
                 d = dict(d)
                 d.update({'mask': rec['mask'], 'radius': rec['rad'], 'threshold': rec['thr']})
@@ -180,15 +180,20 @@ def replay_big(ctx, thorough):
         bad = S.check_vol(rec, variant=ctx.seed + k)
         ctx.count(1)
         _report(ctx, bad)
-        for mi, m in enumerate(methods if rec['chunked'] or thorough else methods[:1]):
+        # (method, dtype of the data matrix): every method on float64; euclidean additionally on an INTEGER matrix
+        # on both sides of the chunking limit (the chunked branch preallocates its result array - it must be
+        # float whatever the data dtype) - the integer width rotates with the seed; thorough: all dtypes
+        combos = [(m, 'float64') for m in (methods if rec['chunked'] or thorough else methods[:1])]
+        combos += [('euclidean', dt) for dt in (S.DATA_DTYPES[1:] if thorough else [S.INT_DTYPES[(ctx.seed + k) % 3]])]
+        for mi, (m, dt) in enumerate(combos):
             b2, info = S.check_rdms(shape, rec['centres'], rec['neigh'], m, variant=ctx.seed + k + mi,
-                                    seed=ctx.seed * 31 + k)
+                                    seed=ctx.seed * 31 + k, dtype=dt)
             ctx.count(len(rec['centres']))
             _report(ctx, b2, {'radius': rec['rad'], 'threshold': rec['thr'], 'n_mask': len(rec['mask'])})
             if not b2 and info.get('chunks') is not None:
                 obs = info['chunks']
                 exp = rec['chunksizes'] if rec['chunked'] else [len(rec['centres'])]
-                sizes.append({'n': len(rec['centres']), 'method': m, 'observed_equals_Chunks': obs == exp})
+                sizes.append({'n': len(rec['centres']), 'method': f'{m}/{dt}', 'observed_equals_Chunks': obs == exp})
                 # order and partition are demanded (already by the per-centre input comparison); the exact
                 # boundaries are the code's choice - report, do not demand
                 if sum(obs) != len(rec['centres']):
